@@ -45,6 +45,7 @@ type c03Case struct {
 	Layers     []c03Layer   `json:"layers"`
 	ConfigSize int          `json:"config_size"` // -1 = no config
 	Prior      int          `json:"prior"`       // 0 empty store, 1 older version of the tag present, 2 leftovers of an interrupted download
+	TornOld    int          `json:"torn_old,omitempty"` // prior 1: the stored manifest as a kill leaves it while it is rewritten: 1 empty, 2 cut in half
 	OldLayers  []c03Layer   `json:"old_layers,omitempty"`
 	PartLayer  int          `json:"part_layer,omitempty"`
 	Parts      []c03Part    `json:"parts,omitempty"`
@@ -122,6 +123,7 @@ func c03Gen(t *rapid.T) c03Case {
 	c.Prior = rapid.SampledFrom([]int{0, 0, 1, 2, 2}).Draw(t, "prior")
 	if c.Prior == 1 {
 		c.OldLayers = rapid.SliceOfN(rapid.Custom(c03GenLayer), 1, 3).Draw(t, "old_layers")
+		c.TornOld = rapid.SampledFrom([]int{0, 0, 0, 1, 2}).Draw(t, "torn_old")
 	}
 	if c.Prior == 2 {
 		c.PartLayer = rapid.IntRange(0, 3).Draw(t, "part_layer")
@@ -313,6 +315,17 @@ func c03Run(t *testing.T, c c03Case, rec *vfkit.Recorder) (info c03Info, err err
 			m := old.manifest()
 			oldManifest = &m
 			cls["prior_old_version"] = true
+			if c.TornOld > 0 {
+				// an earlier update of the tag was killed while the manifest file was being rewritten in place: the name holds
+				// an empty or half-written manifest (it does not resolve); the pull under test is the retry
+				if mp, perr := ParseModelPath(name).GetManifestPath(); perr == nil {
+					if raw, rerr := os.ReadFile(mp); rerr == nil {
+						os.WriteFile(mp, raw[:len(raw)/2*(c.TornOld-1)], 0o644)
+						oldManifest = nil
+						cls["prior_manifest_torn"] = true
+					}
+				}
+			}
 		}
 		model := c03Model(c.Layers, c.ConfigSize)
 		served := model.manifest()
